@@ -390,9 +390,89 @@ def run_twins(c, part, out):
                 out.append((f"C18:copying-call-mutated-input:operator {name[:1]}", {"unit": u, "diff": t2.changed()}))
 
 
+def run_out_views(c, part, out):
+    """out= targets that are fresh view objects of an operand's memory (np.add(x, y, out=x[:]), shifted windows, columns), with the
+    other operand written in another commensurable unit: exactly the numbers of the copying call, the other operand untouched;
+    a refused call of the same shape leaves the memory as it was"""
+    import unyt
+    from unyt import unyt_array
+
+    u = c["unit"]
+    U = unyt.Unit(u)
+    if R.dimvec_of(U.dimensions) is None or U.base_offset or not c["dtype"].startswith("float") or np.ndim(c["vals"]) != 1 or len(c["vals"]) < 3:
+        return
+    try:
+        other_unit = U * unyt.Unit("km") / unyt.Unit("m")  # same dimension, 1000 times the size
+        float(other_unit.base_value)
+    except Exception:
+        return
+    forms = (
+        ("np.add(x, y, out=x[:])", lambda x, y: np.add(x, y, out=x[:]), lambda x, y: np.add(x, y), lambda x: x),
+        ("np.subtract(x, y, out=x[:])", lambda x, y: np.subtract(x, y, out=x[:]), lambda x, y: np.subtract(x, y), lambda x: x),
+        ("np.maximum(y, x, out=x[:])", lambda x, y: np.maximum(y, x, out=x[:]), lambda x, y: np.maximum(y, x), lambda x: x),
+        ("np.add(x, y, out=x.view())", lambda x, y: np.add(x, y, out=x.view(type(x))), lambda x, y: np.add(x, y), lambda x: x),
+        ("np.add(x[1:], y[1:], out=x[:-1])", lambda x, y: np.add(x[1:], y[1:], out=x[:-1]), lambda x, y: np.add(x[1:], y[1:]), lambda x: x[:-1]),
+        ("np.subtract(x[:-1], y[:-1], out=x[1:])", lambda x, y: np.subtract(x[:-1], y[:-1], out=x[1:]), lambda x, y: np.subtract(x[:-1], y[:-1]), lambda x: x[1:]),
+        ("np.add(M[:,0], y, out=M[:,0])", None, None, None),
+    )
+    for yu, ytag in ((u, "same unit"), (other_unit, "other unit")):
+        for name, ip, cp, where in forms:
+            part.ev()
+            if ip is None:
+                # a column of a 2-d array, named twice (two distinct view objects of the same memory)
+                M1 = unyt_array(np.tile(np.asarray(c["vals"], dtype=c["dtype"])[:, None], (1, 2)), u)
+                M2 = M1.copy()
+                y = Operand(c["vals2"], yu, c["dtype"])
+                try:
+                    want = np.add(M2[:, 0], y.q)
+                    np.add(M1[:, 0], y.q, out=M1[:, 0])
+                except Exception:
+                    continue
+                got, untouched_ok = M1[:, 0], np.array_equal(np.asarray(M1[:, 1]), np.asarray(M2[:, 1]), equal_nan=True)
+            else:
+                t1 = Operand(c["vals"], u, c["dtype"], contiguous=True)
+                t2 = Operand(c["vals"], u, c["dtype"], contiguous=True)
+                y = Operand(c["vals2"], yu, c["dtype"])
+                try:
+                    want = cp(t2.q, y.q)
+                    ret = ip(t1.q, y.q)
+                except Exception:
+                    continue
+                # the returned object is the out= view and carries the result's unit; the operand object itself (another Python
+                # object on the same memory) is only comparable when the result comes back in its unit (x left-most)
+                got = where(t1.q) if name.split("(")[1].startswith("x") else ret
+                untouched_ok = t1.base[0] == SENT and t1.base[-1] == SENT
+            part.nt((name, ytag, "out-view"))
+            a_, b_ = np.asarray(got).astype(complex), np.asarray(want.to(got.units) if want.units != got.units else want).astype(complex)
+            eps = 8 * float(np.finfo(np.dtype(c["dtype"])).eps)
+            with np.errstate(all="ignore"):
+                close = a_.shape == b_.shape and bool(np.all((np.abs(a_ - b_) <= eps * np.maximum(np.abs(b_), np.abs(a_))) | (a_ == b_) | (np.isnan(a_) & np.isnan(b_))))
+            if not close:
+                out.append((f"C18:inplace-differs-from-copy:{name}:{ytag}", {"unit": u, "other": str(yu), "dtype": c["dtype"], "inplace": repr(got)[:120], "copy": repr(want)[:120]}))
+            if not untouched_ok:
+                out.append((f"C18:inplace-wrote-outside-target:{name}:{ytag}", {"unit": u, "dtype": c["dtype"]}))
+            if y.changed():
+                out.append((f"C18:inplace-changed-other-operand:{name}:{ytag}", {"unit": u, "diff": y.changed()}))
+    # refused calls with the same target shapes: a Celsius reading minus a Fahrenheit difference is refused after unit conversion
+    # has been set up; a different dimension is refused before
+    for name, mk in (("np.subtract(degC, delta_degF, out=view of target)", lambda t: np.subtract(unyt_array(np.ones(t.q.shape), "degC"), unyt_array(np.ones(t.q.shape), "delta_degF"), out=t.q[:])),
+                     ("np.add(x, other dimension, out=x[:])", lambda t: np.add(t.q, unyt_array(np.ones(t.q.shape), "s" if R.dimvec_of(U.dimensions) != R.dimvec_of(unyt.Unit("s").dimensions) else "m"), out=t.q[:])),
+                     ("np.add(degC, degF, out=view of target)", lambda t: np.add(unyt_array(np.ones(t.q.shape), "degC"), unyt_array(np.ones(t.q.shape), "degF"), out=t.q[:]))):
+        t = Operand(c["vals"], u, c["dtype"], contiguous=True)
+        part.ev()
+        try:
+            mk(t)
+        except Exception:
+            part.nt((name, "refused-out-view"))
+            d = t.changed(numbers_and_units_only=True)
+            if d:
+                out.append((f"C18:failed-call-mutated-target:{name}", {"unit": u, "dtype": c["dtype"], "diff": d}))
+
+
 def judge(c, part):
     out = []
     seq = c["seq"]
+    run_out_views(c, part, out)
     run_faults(c, part, out, seq[:4])
     run_copying(c, part, out, seq[4:])
     run_twins(c, part, out)
